@@ -33,7 +33,7 @@ def instantiations(tier, seed):
         for kind in kinds:
             if kind == "allsym" and len(A) * nc > (4 if tier == "quick" else 6):
                 kind = "onesym"
-            out.append({"A": A, "boxes": mat.boxes_for(kind, nc, rng), "part": "tighten"})
+            out.append({"A": A, "boxes": mat.boxes_for(kind, nc, rng), "part": "tighten", "warm": k % 2 == 1})
         out.append({"A": A, "boxes": mat.boxes_for("mixed", nc, rng), "part": "rows"})
         if k % 2 == 0 or tier == "thorough":
             # the same queries AFTER tighten_column_bounds() was called on the same object (the accessors must keep describing the declared box)
@@ -66,6 +66,20 @@ def setup(ctx, ns, spec):
     return A, b, los, his, xs, P
 
 
+def nd_warm(P):
+    """call-history prefix for polyhedron objects: accessors whose results are discarded"""
+    for f in ("column_bounds", "row_bounds", "to_linalg"):
+        try:
+            getattr(P, f)()
+        except Exception:    # noqa
+            pass
+    for a in ("A", "b", "A_max", "A_min"):
+        try:
+            getattr(P, a)
+        except Exception:    # noqa
+            pass
+
+
 def conc_inputs(m, b, los, his, xs):
     return {"b": [S.model_int(m, v) for v in b], "lo": [S.model_int(m, v) for v in los], "hi": [S.model_int(m, v) for v in his],
             "x": [S.model_int(m, v) for v in xs]}
@@ -85,6 +99,8 @@ def run_inst(spec, run):
             err = None
             out = {}
             try:
+                if spec.get("warm"):
+                    nd_warm(P)
                 if spec["part"] == "tighten":
                     out["tb"] = P.tighten_column_bounds()
                 else:
